@@ -31,14 +31,20 @@ def main(argv):
     a = ap.parse_args(argv)
     if a.setup:
         pairs = []
+        fz = []
         ready = set(open(os.path.join(build.ROOT, 'vf', 'ready.txt')).read().split())
         for pid, plan in props.PLANS.items():
             if pid not in ready:
                 continue
             for j in plan['jobs']:
-                pairs.append((j.harness, j.variant))
+                if getattr(j, 'fuzz', False):
+                    fz.append(j.target)
+                else:
+                    pairs.append((j.harness, j.variant))
         t0 = time.time()
         build.build_many(pairs)
+        for t in dict.fromkeys(fz):
+            build.fuzz_target(t)
         print('setup: built %d harness binaries in %.1fs' % (len(set(pairs)), time.time() - t0))
         return 0
     if a.replay:
